@@ -17,10 +17,13 @@ RULE = ("BFS over histories of {callback(fresh), errback(fresh), cancel, add a c
 BOUNDS = {"quick": "25 canceller configurations, <=3 Deferreds, <=2 pending callbacks per Deferred, depth 8",
           "thorough": "25 canceller configurations, <=4 Deferreds, <=2 pending callbacks per Deferred, depth 10"}
 ASSUMPTIONS = [
-    "raising canceller: the statement is silent; demanded only that cancel() called the canceller exactly once "
-    "and that no second result is accepted afterwards; if the Deferred is left in any state other than "
-    "'still unfired, nothing ran' the search stops there and accepts it; whether cancel() propagates the "
-    "canceller's exception is not checked",
+    "raising canceller: the statement is silent about the outcome; judged only (i) every cancel() that reaches "
+    "an unfired Deferred built with a canceller calls that canceller exactly once (so again on a second cancel() "
+    "after a raising one) and (ii) a Deferred built with a canceller never swallows a result: once fired, any "
+    "further callback/errback raises AlreadyCalledError.  While a raising cancel() leaves everything else "
+    "unchanged the reference stays exact; once it does not, the search continues over {callback, errback, "
+    "cancel} judging only (i) and (ii) from the real objects' own called/result state; whether cancel() "
+    "propagates the canceller's exception is not checked",
     "cancellers that fire do so synchronously with the Deferred they are given; no pause/unpause (C01)",
     "canonical state = per Deferred (called, result class, pending callback kinds incl. continuations, "
     "_suppressAlreadyCalled, canceller present) of the real object plus the reference state; tokens are fresh "
@@ -226,6 +229,8 @@ def apply(st, ev):
     st.rlog, st.mlog = [], []
     d = st.d[i]
     M = st.m[i]
+    if st.open:
+        return apply_open(st, op, i)
     expect = None
     before = None
     was_fired = M.fired
@@ -277,12 +282,15 @@ def apply(st, ev):
         st.bad.append(("Deferred:operation-raised:%s:%s" % (op, got), traceback.format_exc()[-1500:]))
         return
     if expect == "unspecified":
-        # raising canceller: only 'called once' (checked by the count comparison) is demanded; go on only
-        # from the plain outcome "nothing else happened"
+        # raising canceller: 'called exactly once by this cancel()' is checked by the count comparison in
+        # invariant().  If nothing else happened the reference stays exact (Deferred still unfired, canceller
+        # kept); otherwise the reference is left behind and only the two statement-fixed rules are judged from
+        # here on (apply_open).
         target, snap = before
         after = [(x.called, len(getattr(x, "callbacks", ()))) for x in st.d]
         if after != snap or st.rlog:
             st.open = True
+            st.flags.add("canceller-raised-state-changed")
         st.flags.add("canceller-raised")
         return
     if got == "CancellerBoom":
@@ -300,9 +308,71 @@ def apply(st, ev):
         st.bad.append((sig, "%s on d%d (canceller %s): raised %s, reference %s" % (op, i, M.kind, got, expect)))
 
 
+def _real_cancel_target(st, i):
+    """follow fired-and-waiting links on the real objects"""
+    from twisted.internet.defer import Deferred
+    seen = set()
+    while i not in seen:
+        seen.add(i)
+        d = st.d[i]
+        r = getattr(d, "result", NO)
+        if getattr(d, "called", False) and isinstance(r, Deferred) and id(r) in st.ids:
+            i = st.ids[id(r)]
+        else:
+            break
+    return i
+
+
+def apply_open(st, op, i):
+    """After a raising canceller left the Deferreds in a state the statement does not fix, only two rules are
+    judged, from the real objects' own state: (i) cancel() reaching an unfired Deferred built with a canceller
+    calls that canceller exactly once (and no other canceller); (ii) a fired Deferred built with a canceller never
+    swallows a result: a further callback/errback raises AlreadyCalledError."""
+    from twisted.internet.defer import AlreadyCalledError
+    d = st.d[i]
+    kind = st.m[i].kind
+    got = None
+    if op in ("cb", "eb"):
+        was_called = bool(getattr(d, "called", False))
+        tok = ("t", st.ntok)
+        st.ntok += 1
+        try:
+            d.callback(tok) if op == "cb" else d.errback(TokErr(tok))
+        except AlreadyCalledError:
+            got = "AlreadyCalledError"
+        except Exception as e:      # anything else after a raising canceller is not judged
+            got = type(e).__name__
+        st.flags.add("unjudged-mode-result")
+        if was_called and kind != "none" and got != "AlreadyCalledError":
+            st.bad.append(("Deferred:late-result:expected-AlreadyCalledError-got-%s"
+                           % ("silently-ignored" if got is None else got),
+                           "%s on fired d%d (built with canceller %s) after a canceller had raised: raised %s"
+                           % (op, i, kind, got)))
+    elif op == "cancel":
+        t = _real_cancel_target(st, i)
+        unfired = not getattr(st.d[t], "called", False)
+        st.cancel_hit_unfired = unfired
+        want = list(st.rcount)
+        if unfired and st.m[t].kind != "none":
+            want[t] += 1
+        try:
+            d.cancel()
+        except Exception:
+            pass
+        st.flags.add("unjudged-mode-cancel")
+        for j in range(len(st.d)):
+            # keep invariant()'s count comparison meaningful: reference count = what rule (i) demands
+            st.m[j].ccount = want[j]
+    else:
+        raise ValueError(op)
+
+
 def enabled(st):
     if st.open:
-        return []
+        evs = []
+        for i in range(len(st.d)):
+            evs += [("cb", i), ("eb", i), ("cancel", i)]
+        return evs
     evs = []
     for i in range(len(st.d)):
         evs.append(("cb", i))
@@ -330,8 +400,6 @@ def _cls(r):
 
 
 def invariant(st, hist):
-    if st.open:
-        return []
     out = list(st.bad)
     if out:
         return out
@@ -346,6 +414,8 @@ def invariant(st, hist):
                         "d%d canceller called %d times, reference %d (after %s)" % (i, rc, mc, st.lastop)))
     if out:
         return out
+    if st.open:
+        return []
     if st.rlog != st.mlog:
         for i in range(len(st.d)):
             rl = [x[1:] for x in st.rlog if x[0] == i]
